@@ -232,5 +232,9 @@ def run(ck, F, E):
                 ck.ok("C07:PAIR:expression::evaluate_user_defined_function_call:push/pop:err-exit", "frame pairing",
                       "every path from the successful push to any return passes the pop")
 
+    # ---- breaking at an INPUT prompt and CONTinuing re-executes the INPUT statement: it must do nothing until a reply exists
+    from props.C08 import await_rule
+    await_rule(ck, F, E, "C07")
+
     # ---- (6)
     C06.resume_rule(ck, F, "C07")
